@@ -328,7 +328,8 @@ CAPSET_DEFAULT = dict(params="", ret="-> (c: Component)", spec="ensures c.mv() =
 OPT_MSG = "(if message is Some { message->Some_0@ } else { Seq::<u8>::empty() })"
 
 builder("ts_demand_active_pdu", "r.message", keys=True, props=("C04", "C06", "C03"),
-        closures={1: size_closure("length", "sourceDescriptor"), 2: size_closure("length", "capabilitySets", 4), 3: CAPSET_DEFAULT},
+        closures={1: dict(size_closure("length", "sourceDescriptor"), props="C03,C06", cid="sourceDescriptor-size-is-lengthSourceDescriptor"),
+                  2: dict(size_closure("length", "capabilitySets", 4), props="C03,C06", cid="capabilitySets-size-is-lengthCombinedCapabilities-minus-4"), 3: CAPSET_DEFAULT},
         extra=[(None, "type", "r.pdu_type is PdutypeDemandactivepdu"),
                ("C06", "prototype", "r.message.fields()[6].1 matches MV::Arr(s, p) && s.len() == 0 && *p == capability::capability_set_view(1, Seq::empty())"),
                # MS-RDPBCGR 2.2.1.13.1.1; closures #1 / #2 (above): sourceDescriptor has lengthSourceDescriptor bytes, capabilitySets has lengthCombinedCapabilities - 4 bytes
@@ -350,7 +351,8 @@ builder("ts_confirm_active_pdu", "r.message", fuel=3,
                ("C06", "default-prototype", "capabilities_set is None ==> (r.message.fields()[7].1 matches MV::Arr(s, p) && s.len() == 0 && *p == capability::capability_set_view(1, Seq::empty()))"),
                ("C04,C06", "given-array", "capabilities_set is Some ==> r.message.fields()[7].1 == capabilities_set->Some_0.mv()"),
                ("C06", "default-source", "source is None ==> r.message.fields()[4].1 == MV::Bytes(Seq::empty())")])
-builder("ts_deactivate_all_pdu", "r.message", keys=True, props=("C04", "C06", "C03"), closures={1: size_closure("length", "sourceDescriptor")},
+builder("ts_deactivate_all_pdu", "r.message", keys=True, props=("C04", "C06", "C03"),
+        closures={1: dict(size_closure("length", "sourceDescriptor"), props="C03,C06", cid="sourceDescriptor-size-is-lengthSourceDescriptor")},
         extra=[(None, "type", "r.pdu_type is PdutypeDeactivateallpdu"),
                # MS-RDPBCGR 2.2.3.1.1; closure #1: sourceDescriptor has lengthSourceDescriptor bytes
                ("C03,C06", "ts_deactivate_all_pdu-as-documented", "r.message.mv() == deactivate_all_view()")],
@@ -443,7 +445,8 @@ builder("ts_fp_update_bitmap", "r.message", props=("C06", "C10", "C03"),
         post="""proof { let f = r.message.fields(); let g = fp_bitmap_view()->Comp_0;
             assert(f[2].1->Arr_0 =~= Seq::<MV>::empty()); assert(f[2].1 == g[2].1); assert(f =~= g); }""")
 builder("ts_colorpointerattribute", "r.message", props=("C06", "C03"),
-        closures={1: size_closure("length", "andMaskData"), 2: size_closure("length", "xorMaskData")},
+        closures={1: dict(size_closure("length", "andMaskData"), props="C03,C06", cid="andMaskData-size-is-lengthAndMask"),
+                  2: dict(size_closure("length", "xorMaskData"), props="C03,C06", cid="xorMaskData-size-is-lengthXorMask")},
         extra=[(None, "type", "r.fp_type is FastpathUpdatetypeColor"),
                # MS-RDPBCGR 2.2.9.1.1.4.4; closures #1 / #2: andMaskData has lengthAndMask bytes, xorMaskData has lengthXorMask bytes
                ("C03,C06", "ts_colorpointerattribute-as-documented", "r.message.mv() == color_pointer_view()")],
